@@ -1,30 +1,146 @@
 (* C18 - every timer has a unique id and at most one outcome.  Statements only.
-   Model: coq/Timer/Machine.v (command API), coq/Timer/Legacy.v (legacy capability API);
-   outcome automaton C18_ok: coq/Timer/Spec.v; proofs: coq/Timer/*Proofs.v. *)
+   Model: coq/Timer/Machine.v (command API) and coq/Timer/Legacy.v (legacy capability API);
+   outcome automaton C18_ok / C18_ok1 and the vocabulary of the statements (events_of, effects_of,
+   answered, app_cleared, cleared_before_start, req_dropped, good, timer_view ...): coq/Timer/Spec.v;
+   proofs: coq/Timer/SpecProofs.v, MachineProofs.v, LegacyProofs.v.
+
+   Structure: (1) the model's observations are accepted by the automaton for ALL input sequences to
+   any number of timers; (2) every accepted (inputs, observations) pair - the model's, and every
+   implementation trace the check finds accepted - satisfies the clauses of the property.
+   "good" inputs = every shell response has the right kind and id; responses of a wrong kind or id
+   make the code panic on purpose (command.rs: "a developer error"), which the model reproduces
+   (Machine.poll_fut) and the automaton allows (h_bad). *)
 From Coq Require Import List NArith Bool Arith.
-From Crux Require Import Timer.Machine Timer.Spec Timer.MachineProofs.
+From Crux Require Import Timer.Machine Timer.Spec Timer.SpecProofs Timer.MachineProofs.
 Import ListNotations.
 
-(* The outcome automaton accepts the model's observations for EVERY sequence of inputs to every
-   number of timers (first poll, fire, clear, drop handle, drop request, answer clear, drop clear
-   request, late and duplicate and wrong responses, in any interleaving), provided fewer than 2^64
-   timers are started (the id counter is a wrapping usize). *)
+(* ------------------------------------------------------------------------------------------ *)
+(* (1) the model is accepted, for every interleaving of: first poll, fire, clear, drop handle,
+   drop request, answer clear, drop clear request, late / duplicate / wrong responses; several
+   timers at once; notify_after and notify_at.  The id counter is a wrapping usize: fewer than
+   2^64 timers. *)
 Theorem C18_model_accepted : forall c0 xs, (c0 < USIZE)%N -> (N.of_nat (count_starts xs) <= USIZE)%N ->
   C18_ok xs (srun (sys0 c0) xs) = true.
 Proof. exact model_ok. Qed.
 
-(* the same for a single timer, any id, any kind *)
 Theorem C18_model_accepted_one : forall k id xs, C18_ok1 k id xs (trun (new_timer k id) xs) = true.
 Proof. exact model_ok1. Qed.
+
+(* an accepted run of several timers: ids handed out are pairwise distinct ... *)
+Theorem C18_unique_ids : forall xs os, C18_ok xs os = true -> NoDup (started_ids xs os).
+Proof. intros xs os H. exact (sok_ids_nodup xs [] os H (NoDup_nil N)). Qed.
+
+(* ... and the i-th timer started, with its own inputs and observations picked out of the
+   interleaving, is accepted by the one-timer automaton *)
+Theorem C18_each_timer_accepted : forall xs os i k id l, C18_ok xs os = true ->
+  timer_view 0 i xs os = Some (k, id, l) -> C18_ok1 k id (map fst l) (map snd l) = true.
+Proof. intros xs os i k id l H Hv. exact (sok_proj_new xs [] os i k id l H (Nat.le_0_l i) Hv). Qed.
+
+(* ------------------------------------------------------------------------------------------ *)
+(* (2) clauses satisfied by every accepted trace of one timer under good inputs *)
+
+(* at most one outcome *)
+Theorem C18_at_most_one_outcome : forall k id xs os, C18_ok1 k id xs os = true -> good k id xs = true ->
+  length (events_of os) <= 1.
+Proof. exact acc_one_outcome. Qed.
+
+(* Completed only if the shell answered the timer's request (an accepted response of the right
+   kind and id, earlier in the trace), and the CompletedTimerHandle carries the timer's own id *)
+Theorem C18_completed_only_if_answered : forall k id xs os, C18_ok1 k id xs os = true -> good k id xs = true ->
+  forall n i, In (Completed i) (events_of (firstn n os)) ->
+  i = id /\ answered k id (firstn n xs) (firstn n os) = true.
+Proof. exact acc_completed_only_if_answered. Qed.
+
+(* Cleared only if the app cleared it (the first use of the handle, earlier in the trace, is clear()) *)
+Theorem C18_cleared_only_if_cleared : forall k id xs os, C18_ok1 k id xs os = true -> good k id xs = true ->
+  forall n, In Cleared (events_of (firstn n os)) -> app_cleared (firstn n xs) = true.
+Proof. exact acc_cleared_only_if_cleared. Qed.
+
+(* a timer cleared before its command ever ran sends nothing to the shell, ever *)
+Theorem C18_clear_before_start_silent : forall k id xs os, C18_ok1 k id xs os = true -> good k id xs = true ->
+  cleared_before_start xs = true -> effects_of os = [].
+Proof. exact acc_clear_before_start_silent. Qed.
+
+(* all a timer ever sends: its request at most once, then at most one Clear, for its own id *)
+Theorem C18_effects_shape : forall k id xs os, C18_ok1 k id xs os = true -> good k id xs = true ->
+  effects_of os = [] \/ effects_of os = [start_eff k id] \/ effects_of os = [start_eff k id; EClear id].
+Proof. exact acc_effects_shape. Qed.
+
+(* what each run of the command produces, as a function of what happened before ([hist] flags):
+   after the outcome nothing; cleared-before-start: Cleared, silently; first run: the request;
+   answer waiting: Completed and NO clear, even if the app has cleared meanwhile; cleared while
+   pending: exactly [Clear{id}]; Clear answered: Cleared; otherwise nothing, and done only after a
+   request drop (and, while waiting for the timer, only if the handle is gone too) *)
+Theorem C18_poll_clauses : forall k id h e v d, chk_poll k id h e v d = true -> poll_shape k id h e v d.
+Proof. exact chk_poll_shape. Qed.
+
+(* dropping the handle never cancels the timer: the command reports done without an outcome only
+   if the shell dropped one of the timer's requests *)
+Theorem C18_done_only_if_request_dropped : forall k id xs os, C18_ok1 k id xs os = true -> good k id xs = true ->
+  forall n, has_done (firstn n os) -> events_of (firstn n os) = [] ->
+  req_dropped (firstn n xs) (firstn n os) = true.
+Proof. exact acc_done_only_if_request_dropped. Qed.
+
+(* clears, answers, drops arriving after the outcome are ignored: every later run is empty *)
+Theorem C18_late_ignored : forall k id xs1 os1 xs2 os2, length xs1 = length os1 ->
+  C18_ok1 k id (xs1 ++ xs2) (os1 ++ os2) = true -> good k id (xs1 ++ xs2) = true ->
+  events_of os1 <> [] \/ has_done os1 -> Forall quiet_obs os2.
+Proof. exact acc_late_ignored. Qed.
+
+(* no panic under responses of the right kind and id; every input is observed *)
+Theorem C18_no_panic : forall k id xs os, C18_ok1 k id xs os = true -> good k id xs = true ->
+  ~ In OPanic os /\ length os = length xs.
+Proof. exact acc_no_panic. Qed.
+
+(* exactly which responses panic in the code: a response whose kind or id is not the expected one,
+   consumed while the timer waits for it (anything else, including late wrong responses, is ignored) *)
+Theorem C18_wrong_kind_response_panics :
+  exists k id xs, good k id xs = false /\ In OPanic (trun (new_timer k id) xs).
+Proof. exists KAfter, 5%N, [IPoll; IFire (RInstant 5); IPoll]. vm_compute. split; [reflexivity|]. right; right; left; reflexivity. Qed.
 
 (* contract lemma of DESIGN 3.3 for the timer future: re-running the task when nothing changed
    produces nothing and changes nothing (run_until_settled is idempotent) *)
 Theorem C18_poll_stable : forall t t1 e v, run_task t = (t1, e, v, false) -> run_task t1 = (t1, [], [], false).
 Proof. exact run_task_settles. Qed.
 
+(* ------------------------------------------------------------------------------------------ *)
+(* (1)+(2) composed, for the model: every timer of every run of the model satisfies the clauses *)
+Theorem C18_model_timer_clauses : forall c0 xs i k id l,
+  (c0 < USIZE)%N -> (N.of_nat (count_starts xs) <= USIZE)%N ->
+  timer_view 0 i xs (srun (sys0 c0) xs) = Some (k, id, l) -> good k id (map fst l) = true ->
+  let ys := map fst l in let os := map snd l in
+  length (events_of os) <= 1 /\
+  (forall n j, In (Completed j) (events_of (firstn n os)) -> j = id /\ answered k id (firstn n ys) (firstn n os) = true) /\
+  (forall n, In Cleared (events_of (firstn n os)) -> app_cleared (firstn n ys) = true) /\
+  (cleared_before_start ys = true -> effects_of os = []) /\
+  (effects_of os = [] \/ effects_of os = [start_eff k id] \/ effects_of os = [start_eff k id; EClear id]) /\
+  (forall n, has_done (firstn n os) -> events_of (firstn n os) = [] -> req_dropped (firstn n ys) (firstn n os) = true) /\
+  ~ In OPanic os.
+Proof.
+  intros c0 xs i k id l Hc Hn Hv Hg ys os.
+  pose proof (C18_each_timer_accepted _ _ _ _ _ _ (model_ok c0 xs Hc Hn) Hv) as Hacc.
+  repeat split.
+  - exact (acc_one_outcome _ _ _ _ Hacc Hg).
+  - exact (proj1 (acc_completed_only_if_answered _ _ _ _ Hacc Hg n j H)).
+  - exact (proj2 (acc_completed_only_if_answered _ _ _ _ Hacc Hg n j H)).
+  - exact (acc_cleared_only_if_cleared _ _ _ _ Hacc Hg).
+  - exact (acc_clear_before_start_silent _ _ _ _ Hacc Hg).
+  - exact (acc_effects_shape _ _ _ _ Hacc Hg).
+  - exact (acc_done_only_if_request_dropped _ _ _ _ Hacc Hg).
+  - exact (proj1 (acc_no_panic _ _ _ _ Hacc Hg)).
+Qed.
+
+Theorem C18_model_unique_ids : forall c0 xs, (c0 < USIZE)%N -> (N.of_nat (count_starts xs) <= USIZE)%N ->
+  NoDup (started_ids xs (srun (sys0 c0) xs)).
+Proof. intros c0 xs Hc Hn. exact (C18_unique_ids _ _ (model_ok c0 xs Hc Hn)). Qed.
+
+(* non-vacuity: two timers, one cleared while pending (Clear sent, answered, Cleared), one fired
+   and cleared before it next ran (Completed, no clear) *)
 Example C18_nonvacuous :
   srun (sys0 7) [SStart KAfter; SStart KAt; SOn 0 IPoll; SOn 1 IPoll; SOn 0 IClear; SOn 1 (IFire (RInstant 8));
                  SOn 1 IClear; SOn 0 IPoll; SOn 1 IPoll; SOn 0 (IAnsClr (RCleared 7)); SOn 0 IPoll]
   = [OStarted 7; OStarted 8; OPoll [ENotifyAfter 7] [] false; OPoll [ENotifyAt 8] [] false; ORes 3; ORes 0;
-     ORes 3; OPoll [EClear 7] [] false; OPoll [] [Completed 8] true; ORes 0; OPoll [] [Cleared] true].
-Proof. vm_compute. reflexivity. Qed.
+     ORes 3; OPoll [EClear 7] [] false; OPoll [] [Completed 8] true; ORes 0; OPoll [] [Cleared] true]
+  /\ timer_view 0 1 [SStart KAfter; SStart KAt; SOn 1 IPoll] [OStarted 7; OStarted 8; OPoll [ENotifyAt 8] [] false]
+     = Some (KAt, 8%N, [(IPoll, OPoll [ENotifyAt 8] [] false)]).
+Proof. vm_compute. split; reflexivity. Qed.
